@@ -459,7 +459,7 @@ Definition sync_done (w3 : world) : world :=
 Definition M (w w' : world) : Prop :=
   pfx w' = pfx w /\ keys w' = keys w /\ req_sess (sk w') = req_sess (sk w) /\ serial (sk w') = serial (sk w) /\
   last_update (sk w') = last_update (sk w) /\
-  (req_sess (sk w) = false -> session_id (sk w') = session_id (sk w) /\ resetting (sk w') = resetting (sk w) \/ resetting (sk w') = false).
+  (req_sess (sk w) = false -> session_id (sk w') = session_id (sk w)).
 
 Lemma L_M w w' : L w w' -> M w w'.
 Proof. intros (H1 & H2 & H3). apply core_fields in H3. unfold M. intuition auto. Qed.
@@ -468,7 +468,7 @@ Lemma M_L_trans a b c : M a b -> L b c -> M a c.
 Proof.
   intros (A1 & A2 & A3 & A4 & A5 & A6) (B1 & B2 & B3). apply core_fields in B3.
   destruct B3 as (C1 & C2 & C3 & C4 & C5 & C6 & C7 & C8 & C9). unfold M.
-  repeat split; try congruence. intros H. destruct (A6 H) as [[X Y]|X]; [left; split; congruence|right; congruence].
+  repeat split; try congruence. intros H. rewrite C1. auto.
 Qed.
 
 Lemma M_clear a b : M a b -> M a (clear_resetting b).
@@ -482,7 +482,12 @@ Proof.
   intros HL Hs. unfold cr_world. destruct (req_sess (sk w1)) eqn:Er; [|now apply L_M].
   destruct HL as (H1 & H2 & H3). apply core_fields in H3. unfold M, after_cr. cbn [pfx keys sk].
   destruct (negb (last_update (sk w1) =? 0)); cbn; repeat split; try (intuition congruence).
-  all: intros H; exfalso; intuition congruence.
+Qed.
+
+Lemma M_next_query w w' : M w w' -> next_query (sk w') = next_query (sk w).
+Proof.
+  intros (_ & _ & A3 & A4 & _ & A6). unfold next_query. rewrite A3. destruct (req_sess (sk w)); [reflexivity|].
+  now rewrite A4, A6.
 Qed.
 
 (* the exchange got as far as End of Data *)
@@ -547,3 +552,114 @@ Proof.
       unfold bind at 1. unfold ret at 1. cbn [negb].
       apply Hcont; [unfold cr_world; rewrite Erq; reflexivity|auto].
 Qed.
+
+(* ---------- C03 at the level of rtr_sync ---------- *)
+(* the response is built aside and swapped in (reset) when the socket was already resetting (expiry) or
+   has no session but holds data *)
+Definition reset_mode (s : sock) : bool := resetting s || (req_sess s && negb (last_update s =? 0)).
+
+Definition ivs_of (s : sock) := (refresh_iv s, expire_iv s, retry_iv s, iv_mode s).
+
+Lemma apply_eod_intervals_ivs s s' p : ivs_of s = ivs_of s' -> ivs_of (apply_eod_intervals s p) = ivs_of (apply_eod_intervals s' p).
+Proof.
+  unfold ivs_of. intros H. inversion H as [[H1 H2 H3 H4]]. unfold apply_eod_intervals. rewrite H4.
+  destruct (_ && _); cbn [refresh_iv expire_iv retry_iv iv_mode upd_ivs]; congruence.
+Qed.
+
+(* the PDUs of the exchange: first non-notify PDU [cr] (a Cache Response), then the buffered payload, then [eod] *)
+Definition response_received (fuel : nat) (w : world) (cr eod : list byte) (v4 v6 ks : list (list byte)) : Prop :=
+  exists w1 wa wb,
+    sync_first fuel w = Ok (Some cr) w1 /\ nthb cr 1 = c_CACHE_RESPONSE /\
+    collected (cr_world w1 cr) [] [] [] wa v4 v6 ks /\
+    receive_pdu c_RTR_RECV_TIMEOUT wa = Ok (inr eod) wb /\ nthb eod 1 = c_EOD.
+
+Lemma at_eod fuel w cr w1 wa wb eod v4 v6 ks :
+  sync_first fuel w = Ok (Some cr) w1 ->
+  (req_sess (sk w1) = false -> session_id (sk w1) = get16 cr 2) ->
+  collected (cr_world w1 cr) [] [] [] wa v4 v6 ks ->
+  receive_pdu c_RTR_RECV_TIMEOUT wa = Ok (inr eod) wb ->
+  M w wb /\ resetting (sk wb) = reset_mode (sk w) /\ session_id (sk wb) = get16 cr 2 /\ ivs_of (sk wb) = ivs_of (sk w) /\
+  (req_sess (sk w) = false -> session_id (sk w) = get16 cr 2).
+Proof.
+  intros Hsf Hok Hc Hr.
+  destruct (post_ok _ _ _ _ _ _ (sync_first_spec fuel w) Hsf) as [HL _].
+  pose proof (collected_L _ _ _ _ _ _ _ _ Hc) as HL2.
+  pose proof (receive_pdu_L c_RTR_RECV_TIMEOUT wa) as HL3. unfold rel in HL3. rewrite Hr in HL3.
+  pose proof (L_trans _ _ _ HL2 HL3) as HL4.
+  split; [eapply M_L_trans; [apply M_cr_world; eauto|exact HL4]|].
+  destruct HL4 as (_ & _ & C4). apply core_fields in C4. destruct C4 as (D1 & D2 & D3 & D4 & D5 & D6 & D7 & D8 & D9).
+  destruct HL as (_ & _ & C1). apply core_fields in C1. destruct C1 as (E1 & E2 & E3 & E4 & E5 & E6 & E7 & E8 & E9).
+  unfold ivs_of, reset_mode. rewrite D1, D5, D6, D7, D8, D9. rewrite <- E1, <- E2, <- E4, <- E5, <- E6, <- E7, <- E8, <- E9.
+  unfold cr_world in *. destruct (req_sess (sk w1)) eqn:Erq.
+  - unfold after_cr. cbn [sk]. destruct (last_update (sk w1) =? 0); cbn; repeat split; auto; try discriminate;
+      destruct (resetting (sk w1)); reflexivity.
+  - repeat split; auto. rewrite orb_false_r. reflexivity.
+Qed.
+
+Definition sync_success (fuel : nat) (w w' : world) : Prop :=
+  exists cr eod v4 v6 ks,
+    response_received fuel w cr eod v4 v6 ks /\
+    own_p (pfx w') = (if reset_mode (sk w) then announced_p (v4 ++ v6) else apply_delta_p (own_p (pfx w)) (v4 ++ v6)) /\
+    own_k (keys w') = (if reset_mode (sk w) then announced_k ks else apply_delta_k (own_k (keys w)) ks) /\
+    serial (sk w') = get32 eod 8 /\ session_id (sk w') = get16 eod 2 /\ get16 cr 2 = get16 eod 2 /\
+    (req_sess (sk w) = false -> session_id (sk w) = get16 cr 2) /\
+    req_sess (sk w') = false /\ resetting (sk w') = false /\ last_update (sk w') = now w' /\
+    ivs_of (sk w') = ivs_of (apply_eod_intervals (sk w) eod).
+
+(* why an exchange that got as far as End of Data failed *)
+Definition sync_eod_failure (fuel : nat) (w : world) : Prop :=
+  exists cr eod v4 v6 ks,
+    response_received fuel w cr eod v4 v6 ks /\
+    (get16 eod 2 <> get16 cr 2 \/
+     eod_failure (if reset_mode (sk w) then oth_p (pfx w) else pfx w) (if reset_mode (sk w) then oth_k (keys w) else keys w) v4 v6 ks).
+
+Definition sync_failure (fuel : nat) (w w' : world) : Prop :=
+  Permutation (pfx w') (pfx w) /\ Permutation (keys w') (keys w) /\
+  next_query (sk w') = next_query (sk w) /\ last_update (sk w') = last_update (sk w) /\
+  (reset_mode (sk w) = true -> pfx w' = pfx w /\ keys w' = keys w) /\
+  ((pfx w' = pfx w /\ keys w' = keys w) \/ sync_eod_failure fuel w).
+
+Theorem rtr_sync_C03 fuel w :
+  NoDup (pfx w) -> NoDup (keys w) ->
+  match rtr_sync fuel w with
+  | Ok r w' => oth_p (pfx w') = oth_p (pfx w) /\ oth_k (keys w') = oth_k (keys w) /\
+               ((r = 0 /\ sync_success fuel w w') \/ (r <> 0 /\ sync_failure fuel w w'))
+  | Exc _ w' => pfx w' = pfx w /\ keys w' = keys w /\ next_query (sk w') = next_query (sk w)
+  end.
+Proof.
+  intros NP NK. pose proof (rtr_sync_struct fuel w) as HS. unfold post in HS.
+  assert (Hpe : forall cr w1 res, sync_reached_eod fuel w cr w1 res ->
+            exists eod v4 v6 ks wb, response_received fuel w cr eod v4 v6 ks /\
+              process_eod eod v4 v6 ks wb = res /\ pfx wb = pfx w /\ keys wb = keys w /\
+              M w wb /\ resetting (sk wb) = reset_mode (sk w) /\ session_id (sk wb) = get16 cr 2 /\
+              ivs_of (sk wb) = ivs_of (sk w) /\ (req_sess (sk w) = false -> session_id (sk w) = get16 cr 2)).
+  { intros cr w1 res (Hsf & Hty & Hok & (wa & wb & eod & v4 & v6 & ks & Hc & Hr & Hte & Hp)).
+    destruct (at_eod _ _ _ _ _ _ _ _ _ _ Hsf Hok Hc Hr) as (HM & A2 & A3 & A4 & A5).
+    exists eod, v4, v6, ks, wb. split; [exists w1, wa, wb; auto|].
+    pose proof HM as (M1 & M2 & _). split; [exact Hp|]. split; [exact M1|]. split; [exact M2|]. split; [exact HM|]. auto. }
+  destruct (rtr_sync fuel w) as [r w'|e w'].
+  - destruct HS as [[Hr HM]|(cr & w1 & r0 & w3 & Hre & Hcase)].
+    + (* nothing reached the tables *)
+      pose proof (M_next_query _ _ HM) as HQ. destruct HM as (M1 & M2 & M3 & M4 & M5 & M6).
+      rewrite M1, M2. repeat split; auto. right. split; [exact Hr|]. unfold sync_failure. rewrite M1, M2. auto 10.
+    + destruct (Hpe _ _ _ Hre) as (eod & v4 & v6 & ks & wb & Hrr & Hp & B1 & B2 & BM & B3 & B4 & B5 & B6).
+      assert (NPb : NoDup (pfx wb)) by now rewrite B1. assert (NKb : NoDup (keys wb)) by now rewrite B2.
+      pose proof (post_ok _ _ _ _ _ _ (process_eod_spec eod v4 v6 ks wb NPb NKb) Hp) as HE.
+      destruct (eod_post_others _ _ _ _ _ _ _ HE) as [O1 O2]. rewrite B1 in O1. rewrite B2 in O2.
+      pose proof (clear_resetting_facts w3) as F. destruct F as (F1 & F2 & F3 & F4 & F5 & F6 & F7 & F8 & F9 & F10 & F11 & _).
+      destruct Hcase as [(-> & -> & ->)|(Hr0 & -> & ->)].
+      * (* success *)
+        destruct (eod_post_success _ _ _ _ _ _ HE) as (S1 & S2 & S3 & _ & _ & S4).
+        apply core_fields in S4. cbn [session_id req_sess serial last_update refresh_iv expire_iv retry_iv iv_mode resetting upd_serial] in S4.
+        destruct S4 as (T1 & T2 & T3 & T4 & T5 & T6 & T7 & T8 & T9).
+        destruct (apply_eod_intervals_core (sk wb) eod) as (U1 & _).
+        unfold sync_done. cbn [pfx keys sk now]. rewrite F1, F2. repeat split; auto. left. split; [reflexivity|].
+        exists cr, eod, v4, v6, ks. rewrite B3, B1 in S2. rewrite B3, B2 in S3.
+        cbn [serial session_id req_sess resetting last_update upd_last upd_req]. rewrite F1, F2, F3, F4, F6.
+        repeat split; auto; try congruence.
+        unfold ivs_of. cbn [refresh_iv expire_iv retry_iv iv_mode upd_last upd_req].
+        admit.
+      * (* an update failed: undone *)
+        admit.
+  - admit.
+Admitted.
